@@ -11,6 +11,8 @@ From TS Require Import Model.TopsortAlgo Model.Topsort Model.Lang.Common.
 From TS Require Import Model.Lang.TypeScript Model.Lang.Kotlin Model.Lang.Swift Model.Lang.Scala Model.Lang.Go Model.Lang.Python.
 From TS Require Import Spec.Lexers Spec.C15Spec Spec.C15Render.
 From TS Require Proofs.C15_Front Proofs.C15_Replace Proofs.C15 Proofs.C15_Render Proofs.C15_Kotlin Proofs.C15_Go Proofs.C15_Swift Proofs.C15_Python Proofs.C15_TypeScript.
+From TS Require Import Spec.C15RenderScPy.
+From TS Require Proofs.C15_ScalaItem.
 Import ListNotations.
 
 (* ---- front end (after the repair of parse_comment_attrs): a doc attribute with value v - which is what `/// v`,
@@ -407,3 +409,62 @@ Theorem C15_kt_item_line_free : forall (cfg : kt_config),
     c15_contained C15kt LCode (mark (c15_file_pieces C15kt parts)) = true.
 Proof. exact Proofs.C15_Front.C15_kt_item_line_free. Qed.
 Print Assumptions C15_kt_item_line_free.
+
+(* ======================= Scala WITHOUT the neutrality hypothesis =======================
+   [c15_sc_decl_plain d] (Spec/C15RenderScPy.v, decidable) on an abstract declaration of the model's layout layer: its
+   name, generic parameters, member / variant / parent / content-key names and every PRINTED type contain no `/`, no
+   double and no single quote (the characters that open a comment or a literal for the Scala reference lexer), and the
+   wire name of every variant - printed between double quotes through {:?} - is non-empty and free of control
+   characters.  For every such declaration (type alias, case class, empty class, sealed trait + companion object,
+   helper aliases) the rendered text is code parts and `// ` fragments carrying exactly the declaration's doc strings,
+   in print order, and it is contained iff all of them are safe_sc (no LF / CR) - no hypothesis on the code parts. ---- *)
+Theorem C15_sc_decl : forall d : sc_decl,
+  c15_sc_decl_plain d = true ->
+  exists parts,
+    sc_render_decl d = text_of (c15_file_pieces C15sc parts) /\
+    docs_of (c15_file_pieces C15sc parts) = Proofs.C15.sc_decl_docs d /\
+    c15_contained C15sc LCode (mark (c15_file_pieces C15sc parts)) = forallb safe_sc (Proofs.C15.sc_decl_docs d).
+Proof. exact Proofs.C15_ScalaItem.C15_sc_decl. Qed.
+Print Assumptions C15_sc_decl.
+
+(* ---- Scala, one IR item through the model's write_struct / write_enum (helper case classes of struct variants first,
+   then the sealed trait and its companion object) / write_type_alias (write_const is todo!() in scala.rs and is never
+   reached: no text), on the strict input class of C15_kt_item (non-empty identifiers without comment / literal openers,
+   control characters and backslashes; plain generic parameters, content key and type overrides) with plain
+   type_mappings targets: the declarations computed for the item are plain in the sense above, the printed text
+   carries exactly [c15_item_docs_helpers_first it], in this order, and it is contained iff all of them are safe_sc ---- *)
+Theorem C15_sc_item : forall (cfg : sc_config),
+  c15_mappings_plain C15sc (sc_type_mappings cfg) = true ->
+  forall it text,
+  c15_item_strict C15sc Scala it = true ->
+  sc_write_item cfg it = Ok text ->
+  exists parts,
+    text = text_of (c15_file_pieces C15sc parts) /\
+    docs_of (c15_file_pieces C15sc parts) = c15_item_docs_helpers_first it /\
+    c15_contained C15sc LCode (mark (c15_file_pieces C15sc parts)) =
+    forallb safe_sc (c15_item_docs_helpers_first it).
+Proof. exact Proofs.C15_ScalaItem.C15_sc_item. Qed.
+Print Assumptions C15_sc_item.
+
+(* the declarations of a strict item are plain (what ties C15_sc_decl to the IR) *)
+Theorem C15_sc_item_decls_plain : forall (cfg : sc_config),
+  c15_mappings_plain C15sc (sc_type_mappings cfg) = true ->
+  forall it ds,
+  c15_item_strict C15sc Scala it = true ->
+  sc_decl_of cfg it = Ok ds -> forallb c15_sc_decl_plain ds = true.
+Proof. exact Proofs.C15_ScalaItem.sc_decl_plain_ir. Qed.
+Print Assumptions C15_sc_item_decls_plain.
+
+(* ---- Scala, one item whose doc strings are free of line breaks (every parsed item): contained ---- *)
+Theorem C15_sc_item_line_free : forall (cfg : sc_config),
+  c15_mappings_plain C15sc (sc_type_mappings cfg) = true ->
+  forall it text,
+  c15_item_strict C15sc Scala it = true ->
+  Forall (fun d => safe_line eol_lf_cr d = true) (c15_item_docs it) ->
+  sc_write_item cfg it = Ok text ->
+  exists parts,
+    text = text_of (c15_file_pieces C15sc parts) /\
+    docs_of (c15_file_pieces C15sc parts) = c15_item_docs_helpers_first it /\
+    c15_contained C15sc LCode (mark (c15_file_pieces C15sc parts)) = true.
+Proof. exact Proofs.C15_ScalaItem.C15_sc_item_line_free. Qed.
+Print Assumptions C15_sc_item_line_free.
